@@ -68,13 +68,29 @@ var predefined = []efivar.Efivar{efivar.PK, efivar.KEK, efivar.Db, efivar.Dbx, e
 
 func genCase(t *rapid.T) Case {
 	var c Case
-	if rapid.Bool().Draw(t, "predefined") {
+	switch kind := rapid.IntRange(0, 4).Draw(t, "varkind"); {
+	case kind == 0:
+		// a name the library knows under a GUID it does not expect there (another vendor's "db", "dbx" under the
+		// global GUID, ...), or an unknown name under a well-known GUID: name and GUID are independent inputs
+		known := []string{"PK", "KEK", "db", "dbx", "dbt", "dbr", "SecureBoot", "BootOrder", "Boot0001", "MokList"}
+		c.Name = rapid.SampledFrom(known).Draw(t, "knownname")
+		if rapid.Bool().Draw(t, "guid_of_another_variable") {
+			c.GUID = adapt.Ref(*rapid.SampledFrom(predefined).Draw(t, "guidof").GUID).BE()
+		} else {
+			c.GUID = gen.GUID().Draw(t, "guid").BE()
+		}
+		if rapid.Bool().Draw(t, "unknown_name") {
+			c.Name = rapid.StringMatching(`[A-Za-z0-9_\-\. #]{1,40}`).Draw(t, "name")
+			c.GUID = adapt.Ref(*rapid.SampledFrom(predefined).Draw(t, "guidof2").GUID).BE()
+		}
+		c.Attrs = uint32(rapid.SampledFrom(predefined).Draw(t, "attrsof").Attributes)
+	case kind <= 2:
 		v := rapid.SampledFrom(predefined).Draw(t, "var")
 		c.Name, c.GUID, c.Attrs = v.Name, adapt.Ref(*v.GUID).BE(), uint32(v.Attributes)
 		if rapid.IntRange(0, 2).Draw(t, "append") == 0 {
 			c.Attrs |= uint32(attributes.EFI_VARIABLE_APPEND_WRITE)
 		}
-	} else {
+	default:
 		c.Name = rapid.StringMatching(`[A-Za-z0-9_\-\. #]{1,40}`).Draw(t, "name")
 		c.GUID = gen.GUID().Draw(t, "guid").BE()
 		c.Attrs = rapid.Uint32Range(0, 0xff).Draw(t, "attrs")
